@@ -18,3 +18,53 @@ let int_of_z (x : z) : int =
   match x with Z0 -> 0 | Zpos p -> int_of_pos p | Zneg p -> - (int_of_pos p)
 
 let split_on c s = if s = "" then [] else String.split_on_char c s
+
+(* ---- bytes ---- *)
+let rec n_of_int (n : int) : n = if n = 0 then N0 else Npos (pos_of_int n)
+let int_of_n (x : n) : int = match x with N0 -> 0 | Npos p -> int_of_pos p
+
+let hexval c = match c with
+  | '0'..'9' -> Char.code c - 48 | 'a'..'f' -> Char.code c - 87 | 'A'..'F' -> Char.code c - 55
+  | _ -> failwith "hex"
+
+(* "-" is the empty string *)
+let bytes_of_hex (s : string) : n list =
+  if s = "-" || s = "" then [] else begin
+    let len = String.length s / 2 in
+    let rec go i acc = if i < 0 then acc
+      else go (i - 1) (n_of_int (hexval s.[2*i] * 16 + hexval s.[2*i+1]) :: acc) in
+    go (len - 1) []
+  end
+
+let raw_of_bytes (l : n list) : string =
+  let b = Buffer.create 64 in
+  List.iter (fun x -> Buffer.add_char b (Char.chr ((int_of_n x) land 255))) l; Buffer.contents b
+
+let hex_of_raw (s : string) : string =
+  if s = "" then "-" else begin
+    let b = Buffer.create (2 * String.length s) in
+    String.iter (fun c -> Buffer.add_string b (Printf.sprintf "%02x" (Char.code c))) s; Buffer.contents b
+  end
+
+(* printable form: hex, or #len:md5 when long *)
+let show_raw (s : string) : string =
+  if String.length s <= 64 then hex_of_raw s
+  else Printf.sprintf "#%d:%s" (String.length s) (Digest.to_hex (Digest.string s))
+let show_bytes (l : n list) : string = show_raw (raw_of_bytes l)
+
+(* decimal string -> N (up to 2^64) *)
+let n_of_dec (s : string) : n =
+  (* via Z arithmetic on the extracted type would need more exports; do it bitwise on OCaml's
+     arbitrary-precision-free ints by splitting: values < 2^62 fit an int *)
+  let v = Int64.of_string ("0u" ^ s) in
+  let rec pos_of_i64 (x : int64) : positive =
+    if Int64.equal x 1L then XH
+    else if Int64.equal (Int64.logand x 1L) 0L then XO (pos_of_i64 (Int64.shift_right_logical x 1))
+    else XI (pos_of_i64 (Int64.shift_right_logical x 1)) in
+  if Int64.equal v 0L then N0 else Npos (pos_of_i64 v)
+
+(* decimal string (possibly negative, up to 2^64) -> Z *)
+let z_of_dec (s : string) : z =
+  if String.length s > 0 && s.[0] = '-' then
+    (match n_of_dec (String.sub s 1 (String.length s - 1)) with N0 -> Z0 | Npos p -> Zneg p)
+  else (match n_of_dec s with N0 -> Z0 | Npos p -> Zpos p)
